@@ -615,14 +615,6 @@ for _p in ('C01', 'C18'):
     PROPS[_p]['units'] = PROPS[_p]['units'] + ['barrier_verus']
     PROPS[_p]['trusted'] = PROPS[_p]['trusted'] + ['Verus unit barrier_verus: assumed contracts of update_seen (proved complete on the real body by Kani: C18.STICKY, C01.U-STEP), of the generation fetch_add, and of `Iterator::all` on the 2-element array (`verif_all`, rewrite W3: std semantics the installed Verus does not specify); stand-ins for HalfLock / AtomicUsize / yield / spin; termination of the waiting loop not verified (needs readers to leave: fairness)']
 
-# round 3: technique fields name the deciding methods including the Verus units on extracted text
-PROPS['C01']['technique'] = PROPS['C01']['technique'] + ' + Verus: requires/ensures + loop invariant on the extracted HalfLock::write_barrier (both slots observed at zero, one flip) for an unbounded number of waiting passes'
-PROPS['C03']['technique'] = PROPS['C03']['technique'] + ' + Verus on the extracted dispatcher: no verifier-generated check fails on any snapshot and HalfLock::write (precondition false) is unreachable'
-PROPS['C09']['technique'] = 'ordering obligations (store-then-wake, drain-then-scan, scan-all) as trace contracts on the real backend.rs (Kani/CBMC) + Verus requires/ensures contracts with loop contracts on the extracted flush (any number of non-blocking reads), poll_pending (complete) and poll_signal (callees by contract, every callback schedule: Pending only when armed, poll only after an exhausted scan) + Verus composition lemma L-PIPE'
-PROPS['C10']['technique'] = PROPS['C10']['technique'] + ' + Verus contracts on the extracted poll_signal (a reported signal is what the last scan step returned) and Handle::add_signal (records exactly the id it registered)'
-PROPS['C11']['technique'] = 'trace contracts under a monotonically havoc-ed closed flag (close() on another thread at any instant) on the real backend.rs (Kani/CBMC) + Verus requires/ensures contracts on the extracted poll_pending (closed => callback not consulted; complete) and poll_signal (monotone closed flag as ghost state, loop contract: unbounded iterations and callback schedules)'
-PROPS['C18']['technique'] = PROPS['C18']['technique'] + ' + Verus loop contract on the extracted write_barrier (exactly one flip, exit only with both slots seen at zero, unbounded passes) + Kani read/drop balance under generation flips'
-
 # quick tier must stay well under 900 s per check (vp check): the slowest bounded cross-check harnesses run in the thorough
 # tier only for the properties whose unbounded Verus obligations supersede them
 PROPS['C05']['quick_drop'] = ['c04_op_register_vacant', 'c05_op_register_occupied_small', 'c02_hist_order', 'c05_hist_reregister']
@@ -647,3 +639,12 @@ PROPS['C11']['technique'] = 'trace contracts under a monotonically havoc-ed clos
 PROPS['C13']['technique'] = 'trace contracts against a libc model with a ghost descriptor (valid / socket / O_NONBLOCK) on the real pipe.rs, all fds / errnos, Kani/CBMC'
 PROPS['C15']['technique'] = 'function contracts of the action closures built by the real flag::register* (captured through a registry stub), all values / statuses, Kani/CBMC'
 PROPS['C16']['technique'] = 'call-sequence contract of emulate_default_handler against a transcribed signal(7) table, all c_int, Kani/CBMC'
+
+# round 3: technique fields name the deciding methods including the Verus units on extracted text
+PROPS['C01']['technique'] = PROPS['C01']['technique'] + ' + Verus: requires/ensures + loop invariant on the extracted HalfLock::write_barrier (both slots observed at zero, one flip) for an unbounded number of waiting passes'
+PROPS['C03']['technique'] = PROPS['C03']['technique'] + ' + Verus on the extracted dispatcher: no verifier-generated check fails on any snapshot and HalfLock::write (precondition false) is unreachable'
+PROPS['C09']['technique'] = 'ordering obligations (store-then-wake, drain-then-scan, scan-all) as trace contracts on the real backend.rs (Kani/CBMC) + Verus requires/ensures contracts with loop contracts on the extracted flush (any number of non-blocking reads), poll_pending (complete) and poll_signal (callees by contract, every callback schedule: Pending only when armed, poll only after an exhausted scan) + Verus composition lemma L-PIPE'
+PROPS['C10']['technique'] = PROPS['C10']['technique'] + ' + Verus contracts on the extracted poll_signal (a reported signal is what the last scan step returned) and Handle::add_signal (records exactly the id it registered)'
+PROPS['C11']['technique'] = 'trace contracts under a monotonically havoc-ed closed flag (close() on another thread at any instant) on the real backend.rs (Kani/CBMC) + Verus requires/ensures contracts on the extracted poll_pending (closed => callback not consulted; complete) and poll_signal (monotone closed flag as ghost state, loop contract: unbounded iterations and callback schedules)'
+PROPS['C18']['technique'] = PROPS['C18']['technique'] + ' + Verus loop contract on the extracted write_barrier (exactly one flip, exit only with both slots seen at zero, unbounded passes) + Kani read/drop balance under generation flips'
+
